@@ -564,6 +564,59 @@ theorem ip6_read_eq_from_slice (b : Bytes) (h : Ip6) (r : Bytes)
       have : bAt b 0 % 16 * 16 % 256 = bAt b 0 * 16 % 256 := by omega
       simp only [be16, this]
 
+/-! ## MacsecHeader -/
+
+theorem macsec_layout (h : Macsec) (wf : h.WF) (f : Field)
+    (hf : f ∈ macsec h.sci.isSome h.isUnmodified) :
+    h.toBytes.length = macsecLen h.sci.isSome h.isUnmodified ∧
+    extract f h.toBytes = h.get f.name := by
+  obtain ⟨h1, h2, h3, h4, h5⟩ := wf
+  have t := Macsec.tciAn_arith h
+  have b3 : b2n h.scb < 2 := by unfold b2n; split <;> omega
+  have b5 : b2n h.es < 2 := by unfold b2n; split <;> omega
+  cases h with | mk ptype es scb an sl pn sci =>
+  simp only at h1 h2 h3 h4 h5 t b3 b5 hf ⊢
+  cases sci with
+  | none =>
+    cases ptype <;>
+      simp only [macsec, Macsec.isUnmodified, Option.isSome, if_true, if_false, Bool.false_eq_true,
+        List.append_nil, List.cons_append, List.nil_append, List.mem_cons, List.mem_nil_iff,
+        or_false] at hf <;>
+      simp [PType.WF] at h1 <;>
+      simp [Macsec.encrypted, Macsec.userdataChanged] at t <;>
+      (refine ⟨by simp [Macsec.toBytes, Macsec.headerLen, Macsec.isUnmodified, macsecLen], ?_⟩) <;>
+      (rcases hf with rfl | rfl | rfl | rfl | rfl | rfl | rfl | rfl | rfl | rfl | rfl) <;>
+      simp [extract, Field.nBytes, Field.low, spanVal, Macsec.get, Macsec.toBytes, Macsec.headerLen,
+        Macsec.isUnmodified, t, Macsec.encrypted, Macsec.userdataChanged] <;>
+      omega
+  | some s =>
+    have h5 := h5 s rfl
+    cases ptype <;>
+      simp only [macsec, Macsec.isUnmodified, Option.isSome, if_true, if_false, Bool.false_eq_true,
+        List.append_nil, List.cons_append, List.nil_append, List.mem_cons, List.mem_nil_iff,
+        or_false] at hf <;>
+      simp [PType.WF] at h1 <;>
+      simp [Macsec.encrypted, Macsec.userdataChanged] at t <;>
+      (refine ⟨by simp [Macsec.toBytes, Macsec.headerLen, Macsec.isUnmodified, macsecLen, enc64], ?_⟩) <;>
+      (rcases hf with rfl | rfl | rfl | rfl | rfl | rfl | rfl | rfl | rfl | rfl | rfl | rfl) <;>
+      simp [extract, Field.nBytes, Field.low, spanVal, Macsec.get, Macsec.toBytes, Macsec.headerLen,
+        Macsec.isUnmodified, t, Macsec.encrypted, Macsec.userdataChanged, enc64] <;>
+      omega
+
+/-! ## MacsecHeader, decoding -/
+
+theorem macsec_decode_in_range (b : Bytes) (h : Macsec) (n : Nat)
+    (hd : Macsec.fromSlice b = .ok (h, n)) : h.WF ∧ 6 ≤ n ∧ n ≤ 16 ∧ n ≤ b.length := by
+  have := bAt_lt b 0; have := bAt_lt b 1; have := bAt_lt b 2; have := bAt_lt b 3
+  have := bAt_lt b 4; have := bAt_lt b 5; have := bAt_lt b 6; have := bAt_lt b 7
+  have := bAt_lt b 8; have := bAt_lt b 9; have := bAt_lt b 10; have := bAt_lt b 11
+  have := bAt_lt b 12; have := bAt_lt b 13; have := bAt_lt b 14; have := bAt_lt b 15
+  unfold Macsec.fromSlice at hd
+  simp only at hd
+  repeat' (split at hd)
+  all_goals (first | (cases hd; done) | skip)
+  all_goals (cases hd; simp [Macsec.WF, PType.WF]; omega)
+
 /-! ## non-vacuity -/
 
 example : Vlan.WF ⟨5, true, 0xABC, 0x8100⟩ := by decide
